@@ -3,10 +3,7 @@
 import importlib, json, os, sys
 ROOT = os.path.dirname(os.path.dirname(os.path.abspath(__file__)))
 sys.path.insert(0, ROOT)
-NA = {
- "C14": "Pure UTF-8/UTF-16 column arithmetic over a table built from the runtime text (partition_point, accumulated width differences): identity/monotonicity of integer computations has no clause visible in the shape of the code; deciding it needs enumeration or a solver (other technique families). See DESIGN.md section 5.",
- "C17": "Every clause is a computation on filesystem paths and gleam.toml contents discovered by walking directories at run time; no structural clause that is a necessary condition and could realistically break while compiling. See DESIGN.md section 5.",
-}
+NA = {}
 NOT_BUILT = "structural clause identified in DESIGN.md section 4 but no check is built yet"
 BASE = "cd /repo && cargo test --workspace --no-fail-fast --offline"
 checks, claimed = [], set()
